@@ -222,9 +222,11 @@ static int      vf_nlive;
 static inline uint64_t vf_mix(uint64_t x) { x += 0x9E3779B97F4A7C15ULL; x = (x ^ (x >> 30)) * 0xBF58476D1CE4E5B9ULL; x = (x ^ (x >> 27)) * 0x94D049BB133111EBULL; return x ^ (x >> 31); }
 
 #define VF_BIG (128 * 1024)
+#define VF_GIANT ((size_t)256 * 1024 * 1024)    /* above this the middle part is touched once per MiB only (multi-GiB blocks stay virtual) */
+#define VF_STRIDE(n) ((n) > VF_GIANT ? (size_t)512 * 256 : (size_t)512)
 /* Pattern: word j (bytes 8j..8j+7) of a block is mix(seed + j).  Blocks up to 128 KiB are written and
  * checked densely.  Bigger blocks use the index set I(n) = { j < 512 } u { j = 512k } u { last 512 words }
- * (first 4 KiB, one word per 4 KiB -- every OS page is touched --, last 4 KiB).  `limit` restricts a check
+ * (first 4 KiB, one word per 4 KiB -- every OS page is touched --, last 4 KiB; blocks above 256 MiB: one word per MiB).  `limit` restricts a check
  * to the first `limit` bytes (used for the preserved prefix after a realloc, where the layout is the OLD size). */
 static void vf_pat_write(uint8_t* p, size_t n, uint64_t seed) {
   size_t w = n / 8;
@@ -232,7 +234,7 @@ static void vf_pat_write(uint8_t* p, size_t n, uint64_t seed) {
     for (size_t j = 0; j < w; j++) { uint64_t v = vf_mix(seed + j); memcpy(p + 8 * j, &v, 8); }
   } else {
     for (size_t j = 0; j < 512; j++) { uint64_t v = vf_mix(seed + j); memcpy(p + 8 * j, &v, 8); }
-    for (size_t j = 512; j < w; j += 512) { uint64_t v = vf_mix(seed + j); memcpy(p + 8 * j, &v, 8); }
+    for (size_t j = 512; j < w; j += VF_STRIDE(n)) { uint64_t v = vf_mix(seed + j); memcpy(p + 8 * j, &v, 8); }
     for (size_t j = w - 512; j < w; j++) { uint64_t v = vf_mix(seed + j); memcpy(p + 8 * j, &v, 8); }
   }
   if (n & 7) { uint64_t v = vf_mix(seed + w); memcpy(p + 8 * w, &v, n & 7); }
@@ -253,7 +255,7 @@ static long vf_pat_check_lim(const uint8_t* p, size_t n, uint64_t seed, size_t l
     for (size_t j = 0; j < wl; j++) if ((bad = vf_pat_word_bad(p, j, seed, limit)) >= 0) return bad;
   } else {
     for (size_t j = 0; j < 512 && j < wl; j++) if ((bad = vf_pat_word_bad(p, j, seed, limit)) >= 0) return bad;
-    for (size_t j = 512; j < w && j < wl; j += 512) if ((bad = vf_pat_word_bad(p, j, seed, limit)) >= 0) return bad;
+    for (size_t j = 512; j < w && j < wl; j += VF_STRIDE(n)) if ((bad = vf_pat_word_bad(p, j, seed, limit)) >= 0) return bad;
     for (size_t j = w - 512; j <= w && j < wl; j++) if ((bad = vf_pat_word_bad(p, j, seed, limit)) >= 0) return bad;
   }
   return -1;
